@@ -106,6 +106,7 @@ func init() {
 			"a relation member that is not in the input may be given either candidate ID (path or area; relation or area)",
 			"a built world may hold a clockwise closed way reversed (BuildOptions documents the inversion); the feature source must emit it as listed",
 			"tags are compared as a set of (mapped key, string value); order is C39's subject",
+			"an OSM tag whose key is b6's geometry key (point on a node, path on an open way) is don't-care: the feature's point / path must still be the node's location / the way's nodes",
 		},
 		Quick: 8000, Thorough: 100000,
 		Required: []string{"rule_node_point", "rule_open_way_path", "rule_closed_way_untagged_path", "rule_closed_way_area_tagged", "rule_multipolygon_area",
@@ -113,10 +114,12 @@ func init() {
 			"rule_member_closed-way", "rule_member_multipolygon", "rule_member_relation", "rule_member_missing-way", "rule_member_missing-node",
 			"key_mapped_hash", "key_mapped_at", "key_unmapped", "search_hash_hits", "search_at_hits", "search_unmapped_probes",
 			"in_closed_way_cw", "in_closed_way_ccw", "in_way_node_twice", "in_way_shares_node", "in_mp_node_member", "id_collision_relation_way",
-			"read_features_checked", "built_features_checked", "cw_reversed_in_built_world"},
+			"read_features_checked", "built_features_checked", "cw_reversed_in_built_world", "in_reserved_point_key", "in_reserved_path_key"},
 		Run: func(c *core.Ctx) {
 			r := c.R
-			in := c29Generate(r.Fork(), c29DefaultOpts())
+			opts := c29DefaultOpts()
+			opts.Reserved = 0.2
+			in := c29Generate(r.Fork(), opts)
 			m := c29Expect(in)
 			c.Key("%s", in.String())
 			c29CountRules(c, in, m)
